@@ -18,11 +18,11 @@ func init() {
 	core.Register(&core.Prop{
 		ID:    "C11",
 		Level: "exploration",
-		Rule: "case = multiset of (value, dyadic weight in (0,2^20]) with total weight W from 2^-10 upward (half of the cases W<1), reached by weighted adds or by reweighting down (a quarter of the cases on an object that held as many other values before and was cleared), on every store kind (collapsing ones wide enough not to fold) and mapping kind; q grid incl. 0, 1, cumulative-interval boundaries; " +
+		Rule: "case = multiset of (value, dyadic weight in (0,2^20]) with total weight W from 2^-10 upward (half of the cases W<1), reached by weighted adds or by reweighting down (a quarter of the cases on an object that held as many other values before and was cleared, a quarter on a copy that absorbs the rest of the items), on every store kind (collapsing ones wide enough not to fold) and mapping kind; q grid incl. 0, 1, cumulative-interval boundaries; " +
 			"oracle: the answer is within (alpha+64u) of some absorbed item whose cumulative-weight interval is within distance 1 of q*(W-1), lies within [GetMinValue, GetMaxValue], is >=0 if nothing negative was absorbed, <=0 if nothing positive, and 0 only if the zero bucket holds weight. " +
 			"Non-trivial = W<1 or >=1 non-integer weight; distinct = hash of (mapping, store, items).",
 		Cases:     core.Scale(150000, 4000000),
-		Mandatory: []string{"oracle.weighted_quantile_checks", "total_weight.lt1", "total_weight.ge1", "reached_by.reweight", "reached_by.weighted_adds", "reached_by.reweight_then_more_adds", "query.on_interval_boundary", "reached_by.reuse_after_clear"},
+		Mandatory: []string{"oracle.weighted_quantile_checks", "total_weight.lt1", "total_weight.ge1", "reached_by.reweight", "reached_by.weighted_adds", "reached_by.reweight_then_more_adds", "query.on_interval_boundary", "reached_by.reuse_after_clear", "reached_by.continuing_on_a_copy"},
 		Run:       runC11,
 	})
 	core.Register(&core.Prop{
@@ -100,8 +100,23 @@ func runC11(c *core.Ctx) {
 		items = items[:k]
 		c.Count("reached_by.reweight_then_more_adds", 1)
 	}
+	// a quarter of the sketches are copies: part of the items is absorbed by the original, the rest (and every
+	// query) by its copy, while the original is cleared and goes its own way
+	copyAt, copied := -1, false
+	if len(items) >= 2 && r.P(0.25) {
+		copyAt = r.Range(1, len(items)-1)
+	}
 	addAll := func(list []mon.Item) bool {
-		for _, it := range list {
+		for i, it := range list {
+			if i == copyAt && !copied {
+				copied = true
+				old := s
+				if c.Guard("Copy", func() { s = old.Copy(); old.I().Clear(); old.I().AddWithCount(it.V, 3) }) {
+					return false
+				}
+				c.Logf("the sketch is replaced by its copy after %d weighted additions", i)
+				c.Count("reached_by.continuing_on_a_copy", 1)
+			}
 			c.SigF(it.V)
 			c.SigF(it.W)
 			var err error
